@@ -299,6 +299,7 @@ func ruleReplayTail() *Rule {
 			if len(truncs) == 0 {
 				obs.fail(k4, p.InstrPos(dCall), "no (*os.File).Truncate of the log file is reachable after a decode error: a partial record at the end of the file is never cut off", nil, premise)
 			}
+			replayPositionSource(p, obs, fn, dCall)
 			for _, t := range truncs {
 				arg := t.call.Common().Args[1]
 				if _, isConst := stripConvert(resolve(t.fr, arg)).(*ssa.Const); isConst {
@@ -310,6 +311,199 @@ func ruleReplayTail() *Rule {
 			return obs.list()
 		},
 	}
+}
+
+// replayPositionSource decides the clause "the position the file is cut back / repositioned to is not read from
+// beneath a read-ahead buffer": if the decoder's input is a bufio.Reader built over X, a position that is taken
+// from X (a counting wrapper's field, or the file's own offset) counts what the buffer has fetched, not what the
+// decoder has consumed, so it overshoots the end of the last complete record by the read-ahead. The clause is a
+// contradiction rule: it only speaks when it recognises both the buffer and a position source beneath it (and no
+// correction by (*bufio.Reader).Buffered); any other derivation (sum of record sizes, a counter that wraps the
+// buffer, a correction by Buffered) is accepted as "tracked".
+func replayPositionSource(p *Program, obs *obSet, fn *ssa.Function, dCall *ssa.Call) {
+	const k5 = "position of the last complete record is not read from beneath a read-ahead buffer in (*persistentLog).Replay"
+	if dCall == nil || dCall.Parent() != fn || len(dCall.Common().Args) == 0 {
+		return
+	}
+	unwrap := func(v ssa.Value) ssa.Value {
+		for {
+			switch x := v.(type) {
+			case *ssa.MakeInterface:
+				v = x.X
+			case *ssa.ChangeInterface:
+				v = x.X
+			case *ssa.ChangeType:
+				v = x.X
+			default:
+				return v
+			}
+		}
+	}
+	input := unwrap(dCall.Common().Args[0])
+	bc, ok := input.(*ssa.Call)
+	if !ok {
+		obs.ok(k5, p.InstrPos(dCall), "the decoder does not read through a read-ahead buffer created in Replay (its input is "+input.String()+")")
+		return
+	}
+	switch calleeName(bc.Common()) {
+	case "bufio.NewReader", "bufio.NewReaderSize":
+	default:
+		obs.ok(k5, p.InstrPos(dCall), "the decoder's input is not a bufio.Reader created in Replay")
+		return
+	}
+	// everything beneath the buffer: the value handed to bufio.NewReader, and, if that is a local wrapper object,
+	// the readers stored into its fields, transitively
+	beneath := map[ssa.Value]bool{}
+	var addBeneath func(v ssa.Value)
+	addBeneath = func(v ssa.Value) {
+		v = unwrap(v)
+		if v == nil || beneath[v] {
+			return
+		}
+		beneath[v] = true
+		switch x := v.(type) {
+		case *ssa.Alloc:
+			if refs := x.Referrers(); refs != nil {
+				for _, r := range *refs {
+					fa, ok := r.(*ssa.FieldAddr)
+					if !ok || fa.Referrers() == nil {
+						continue
+					}
+					for _, rr := range *fa.Referrers() {
+						if st, ok := rr.(*ssa.Store); ok && st.Addr == fa {
+							if _, isIface := st.Val.Type().Underlying().(*types.Interface); isIface {
+								addBeneath(st.Val)
+							}
+						}
+					}
+				}
+			}
+		case *ssa.UnOp:
+			// load of a field holding the file: remember the load itself
+		}
+	}
+	addBeneath(bc.Common().Args[0])
+	// positions used: arguments of Truncate and of Seek(…, io.SeekStart) on an *os.File in Replay
+	type use struct {
+		call *ssa.Call
+		arg  ssa.Value
+	}
+	var uses []use
+	for _, b := range fn.Blocks {
+		for _, in := range b.Instrs {
+			kind, _, call := fileEvent(in)
+			switch kind {
+			case "truncate":
+				uses = append(uses, use{call, call.Common().Args[1]})
+			case "seek":
+				if w, ok := constIntOf(call.Common().Args[2]); ok && w == 0 {
+					uses = append(uses, use{call, call.Common().Args[1]})
+				}
+			}
+		}
+	}
+	isFileLoad := func(v ssa.Value) bool {
+		// two loads of the same field of the same object denote the same file here (Replay does not reassign it)
+		for b := range beneath {
+			if u1, ok := b.(*ssa.UnOp); ok {
+				if u2, ok := v.(*ssa.UnOp); ok {
+					f1, ok1 := u1.X.(*ssa.FieldAddr)
+					f2, ok2 := u2.X.(*ssa.FieldAddr)
+					if ok1 && ok2 && sameBase(f1.X, f2.X) && f1.Field == f2.Field {
+						return true
+					}
+				}
+			}
+		}
+		return beneath[v]
+	}
+	for _, u := range uses {
+		var below []string
+		corrected := false
+		seen := map[ssa.Value]bool{}
+		var walk func(v ssa.Value)
+		walk = func(v ssa.Value) {
+			if v == nil || seen[v] {
+				return
+			}
+			seen[v] = true
+			switch x := v.(type) {
+			case *ssa.Phi:
+				for _, e := range x.Edges {
+					walk(e)
+				}
+			case *ssa.Convert:
+				walk(x.X)
+			case *ssa.ChangeType:
+				walk(x.X)
+			case *ssa.BinOp:
+				walk(x.X)
+				walk(x.Y)
+			case *ssa.Extract:
+				walk(x.Tuple)
+			case *ssa.UnOp:
+				if x.Op != token.MUL {
+					walk(x.X)
+					return
+				}
+				switch ad := x.X.(type) {
+				case *ssa.FieldAddr:
+					if beneath[unwrap(ad.X)] {
+						below = append(below, "field "+fieldOf(ad.X.Type(), ad.Field).Name()+" of the reader wrapped by the buffer ("+p.InstrPos(x)+")")
+					}
+				case *ssa.Alloc:
+					// a local variable: every value stored to it
+					if refs := ad.Referrers(); refs != nil {
+						for _, r := range *refs {
+							if st, ok := r.(*ssa.Store); ok && st.Addr == ad {
+								walk(st.Val)
+							}
+						}
+					}
+				}
+			case *ssa.Call:
+				switch calleeName(x.Common()) {
+				case "(*bufio.Reader).Buffered":
+					if unwrap(x.Common().Args[0]) == input {
+						corrected = true
+					}
+				case "(*os.File).Seek":
+					if isFileLoad(unwrap(x.Common().Args[0])) {
+						below = append(below, "offset of the file the buffer reads from ("+p.InstrPos(x)+")")
+					}
+				}
+			}
+		}
+		walk(u.arg)
+		name := calleeName(u.call.Common())
+		switch {
+		case len(below) > 0 && !corrected:
+			obs.fail(k5, p.InstrPos(u.call), "the offset passed to "+name+" is taken from beneath the bufio.Reader the decoder reads through ("+strings.Join(below, "; ")+
+				"): it counts the bytes the buffer has fetched ahead, not the bytes decoded, so for a log smaller than the buffer it equals the file size and a torn tail is neither cut off nor skipped", nil,
+				"decoder input: "+input.String()+" at "+p.InstrPos(bc))
+		default:
+			obs.ok(k5, p.InstrPos(u.call), "the offset passed to "+name+" is not taken from beneath the decoder's read-ahead buffer (or is corrected by Buffered())")
+		}
+	}
+	if len(uses) == 0 {
+		obs.ok(k5, p.InstrPos(dCall), "no Truncate/Seek to a computed position in Replay")
+	}
+}
+
+// sameBase: the two values are the same register, or loads of the same local variable (a parameter spilled
+// because a closure captures it).
+func sameBase(a, b ssa.Value) bool {
+	if a == b {
+		return true
+	}
+	u1, ok1 := a.(*ssa.UnOp)
+	u2, ok2 := b.(*ssa.UnOp)
+	if ok1 && ok2 && u1.Op == token.MUL && u2.Op == token.MUL {
+		if al, ok := u1.X.(*ssa.Alloc); ok && u1.X == u2.X && singleStore(al) != nil {
+			return true
+		}
+	}
+	return false
 }
 
 // ---------------------------------------------------------------------------------------------
